@@ -135,6 +135,24 @@ func allocScript(rep *Report, m *model.Client, r *rand.Rand) int {
 			}
 		}
 	}
+	if r.Intn(4) == 0 && dataEnd > 14 {
+		// the limit was lowered below the extent of the file (open with FlagUpdMaxSize on a bigger file): the end
+		// markers are beyond the limit (D17, D18); optionally an overflow area with used and free pages follows
+		maxPages = uint(10 + r.Intn(int(dataEnd)-12))
+		if metaEnd == dataEnd && r.Intn(2) == 0 {
+			used, free := uint64(r.Intn(3)), uint64(r.Intn(4))
+			if free > 0 {
+				start := metaEnd
+				if r.Intn(2) == 0 {
+					start += used // used pages first, the free ones at the very end of the file
+				}
+				metaFree = append(metaFree, txfile.VerifRegion{ID: start, Count: uint32(free)})
+			}
+			metaTotal += uint(used + free)
+			metaEnd += used + free
+		}
+		rep.count("alloc-init:limit-below-extent", 1)
+	}
 	v := txfile.NewVerifAllocator(pageSize, maxPages, dataEnd, metaEnd, metaTotal, dataFree, metaFree)
 	init := allocStateString(v.Snap())
 	if res := m.Ask("alloc_set " + init); res != "ok" {
